@@ -646,8 +646,9 @@ class MappingSchema(AbstractMappingSchema, Schema):
 
         dialect = dialect or self.dialect
         name_str = name if isinstance(name, str) else name.name
-        # A quoted identifier may be normalized differently from an unquoted one with the same text
-        quoted = not isinstance(name, str) and name.quoted
+        # A quoted identifier may be normalized differently from an unquoted one with the same text,
+        # and a string is parsed first, so it's neither (e.g. "a b" parses into a quoted identifier)
+        quoted = None if isinstance(name, str) else name.quoted
         cache_key = (name_str, quoted, _dialect_cache_key(dialect), is_table, normalize)
 
         if cached := self._normalized_name_cache.get(cache_key):
